@@ -51,7 +51,7 @@ def make_case(r):
     vals = value_set(r)
     r.shuffle(vals)          # the order in which the grammar lists the values must not matter
     pre = r.choice(PRES)
-    shape = r.choice(['plain', 'plain', 'def', 'suffix', 'two', 'twins', 'later-branch'])
+    shape = r.choice(['plain', 'plain', 'def', 'suffix', 'two', 'twins', 'twins', 'later-branch'])
     suf = ''
     V = alt(*[lit(v) for v in vals])
     stmts = []
